@@ -2,8 +2,8 @@
    extracted and run beside the real client by the C15 check; the theorems about it are in ms/SessionRename.v).
 
    spec_op ver o s = the value the client call returns and the state the reference server is left with (its store,
-   active script and configuration are what matters), or None where the specification says nothing (GETSCRIPT of a
-   missing script, CHECKSCRIPT without VERSION, connect / logout / capability).
+   active script and configuration are what matters), or None where the specification says nothing (CHECKSCRIPT
+   without VERSION, connect / capability).  GETSCRIPT of a missing script and LOGOUT return None (VNone).
    ver: the server announced VERSION; without it the client renames by emulation (RenameAbs.rename_abs). *)
 From Coq Require Import String.
 From Coq Require Import List NArith Bool.
@@ -30,7 +30,8 @@ Definition of_aresult (r : aresult) : option value :=
 Definition spec_op (ver : bool) (o : op) (s : sstate) : option (value * sstate) :=
   match o with
   | OListscripts => Some (VListing (fst (listing_of s)) (snd (listing_of s)), s)
-  | OGetscript n => match assoc_get n (s_store s) with Some c => Some (VBytes (norm c), s) | None => None end
+  | OGetscript n => match assoc_get n (s_store s) with Some c => Some (VBytes (norm c), s) | None => Some (VNone, s) end
+  | OLogout => Some (VNone, s)
   | _ =>
       match op_request o with
       | Some (verb, pargs) =>
